@@ -194,7 +194,9 @@ class MCLevyCopulaSimulation:
                 for j in range(i + 1, dimension):
                     adj_matrix[i, j] = adj_matrix[j, i] = next(outputs)
 
-        variance_matrix = np.dot(adj_matrix, adj_matrix.T) + model_variance
+        # adj_matrix holds the covariances of the small jumps (the integrals of x_i * x_j over the central cell): it is
+        # added to the variance of the diffusion as it is, not squared
+        variance_matrix = adj_matrix + model_variance
         # principal square root of the symmetric positive semi-definite variance matrix; scipy.linalg.sqrtm returns
         # infinite entries for some singular matrices (e.g. when several margins have no diffusion part)
         eigenvalues, eigenvectors = np.linalg.eigh(variance_matrix)
